@@ -35,16 +35,19 @@ TRUSTED_BASE = [
     "the printed identity is one non-empty whitespace-free token; one appended registry line is one record (names containing line breaks are outside the faithful domain of the model; ASCII whitespace only)",
     "hand model coq/C15/Model.v of _fix_unique, CalculationExecutor.run, _execute_external, clean_up and of the directory, tied by the correspondence streams",
     "wrapper glue outside the anchors enters as an oracle: the additional input files a wrapper declares (calc.input.additional_filenames) are passed to the model; input/aux file names are assumed never to coincide with output file names",
-    "the scripted external program (writes <name>.out with a tag, and <name>_side.tmp) stands for the real programs; CPython prints list(set(small ints)) deterministically",
+    "the scripted external program (writes <name>.out with a tag naming request and operation, and <name>_side.tmp) stands for the real programs; the identity uses the PRINTED constraints (list(set(..)) / dict in insertion order), so equal constraint sets given in another order are different model requests (implementation oracle: constraint-insertion-order finding)",
     "OS: os.listdir/os.remove/open(..., 'a'); multiprocessing fork",
 ]
 ASSUMPTIONS = [
     "appending one line to .autode_calculations is atomic (O_APPEND, single write): stated in Model.v, exercised by the concurrent-worker stream, not proved",
-    "theorems about names/reuse assume clean requests (no whitespace in requested name / method name); whitespace_name_refuted shows the hypothesis is necessary",
+    "theorems about names/reuse assume clean requests (requested name / method name in 7-bit ASCII without blanks); whitespace_name_refuted shows the hypothesis is necessary",
+    "cleanup_only_own_files_partial assumes the object declares no stale additional files (o_stale = []); cleanup_stale_declaration_refuted shows the hypothesis is necessary",
+    "optimisation_results_same_identity is about optimisation objects run as built; optimisation_late_change_refuted shows it fails for objects changed after construction",
     "all output-file extensions have equal length (proved for the generated ext_table, default '.out')",
 ]
-RULE = ("bounded-exhaustive: every sequence of length 1..d over clusters of 6 operations (request x scripted program outcome x clean-up mode), "
-        "5 fixed clusters + random ones, d = 4/3 (quick), 5/6 (thorough; depth 6 over 5 operations), drawn from the universe "
+RULE = ("bounded-exhaustive: every sequence of length 1..d over clusters of 6 operations (request x scripted program outcome x clean-up mode "
+        "x new/re-used object), 11 fixed clusters + random ones, quick d = 4 (identity-fields, names-prefix), 2 (opt-trajectory), 3 (others); "
+        "thorough d = 6 over 5 operations (identity-fields), 5, 4 (opt-trajectory, substring, keywords, stale-aux, random); universe "
         "names{a, a_xtb, -a, 'a b', ' a'} x methods{xtb, orca, orca+smd} x keywords{k1, k1 k2} x species{base, charge, mult, solvent, cartesian, "
         "distance, distance+4e-4, point charges, species name, composition}; random sequences of length 6-12 over the whole universe; "
         "restart = the same sequence split over two fresh interpreters; concurrent = 4/8 forked workers x 12/50 rounds with pairwise "
@@ -78,7 +81,7 @@ PINS = [("autode/calculations/executors.py", q) for q in (
     "MaxOptCycles.__repr__")] + [
     ("autode/calculations/executors.py", "_point_charges_str"),
     ("autode/values.py", "Distance.__repr__"), ("autode/constraints.py", "DistanceConstraints"),
-    ("autode/point_charges.py", "PointCharge.__init__"), ("autode/atoms.py", "Atom.label"),
+    ("autode/point_charges.py", "PointCharge.__init__"),
     # the execution path of the wrappers that the real-wrapper stream drives
     ("autode/utils.py", "work_in_tmp_dir"), ("autode/utils.py", "run_external"),
     ("autode/wrappers/XTB.py", "XTB.execute"), ("autode/wrappers/ORCA.py", "ORCA.execute"),
@@ -142,7 +145,7 @@ def spec(name, meth, kw, sp):
 
 
 def universe(full):
-    names = ["a", "a_xtb", "-a"] + (["a b", " a"] if full else ["a b"])
+    names = ["a", "a_xtb", "-a", "a b", " a"]
     U = []
     for n in names:
         for m in ("xtb", "orca", "orca_smd"):
@@ -161,11 +164,13 @@ def universe(full):
     # optimisations through CalculationExecutorO (trajectory <name>_opt_trj.zip)
     U += [spec(n, "surf", k, s) for n in ("a", "b") for k in ("o1", "o2") for s in OSPECIES
           if n == "a" or s in ("obase", "odist")]
+    for sp in U:
+        sp["full"] = full
     return U
 
 
 def is_full(U):
-    return any(sp["name"] == " a" for sp in U)
+    return bool(U[0].get("full"))
 
 
 def conc_universe(nworkers):
@@ -512,18 +517,20 @@ def run_ops_impl(U, ops, workdir, start_fresh=True, real=False):
             for f in before:                      # so that every file written by this operation is recognisable
                 os.utime(f, ns=(0, 0))
             Config.keep_input_files = cm != "CAuto"
-            raised = False
+            raised, noinput = False, False
             try:
                 calc.run()
-            except aex.AutodeException:
-                raised = True
+            except aex.AutodeException as exc:
+                raised, noinput = True, isinstance(exc, aex.NoInputError)
             finally:
                 Config.keep_input_files = True
             listing_after_run = set(os.listdir())
             written = {f for f in listing_after_run if f not in before or os.stat(f).st_mtime_ns != 0}
             declared = list(dict.fromkeys(calc.input.additional_filenames))
-            aux = [f for f in declared if f in written]
-            stale = [f for f in declared if f not in written]
+            # written in this run / still declared from an earlier run of the object (a file that is gone
+            # again was written and removed by run()'s own clean-up unless NoInputError says it never existed)
+            aux = [f for f in declared if f in written or (f not in listing_after_run and f not in before and not noinput)]
+            stale = [f for f in declared if f not in aux]
             is_opt = not ext
             outf = f"{calc._executor.name}_opt_trj.zip" if is_opt else calc.output.filename
             out_tag = None
@@ -543,7 +550,7 @@ def run_ops_impl(U, ops, workdir, start_fresh=True, real=False):
             stales.append(stale)
             snaps.append(dict(before=sorted(before), after_run=sorted(listing_after_run), after=sorted(os.listdir()),
                               out=outf, inputs=([] if is_opt else list(calc.input.filenames)), written=sorted(written),
-                              out_tag=out_tag, stale=stale))
+                              out_tag=out_tag, stale=stale, noinput=noinput))
         files, outs, reg = read_dir()
     finally:
         os.chdir(cwd)
@@ -567,6 +574,7 @@ def oracle_sequence(U, ops, res):
     creator = {}         # file name -> calculation name that (re)wrote it last
     first_name = {}      # request index -> the name it got when first issued
     first_j = {}
+    late_names = set()   # names first taken by an optimisation object that was changed after it was built
     first_start = {}     # request -> name carried by the re-used object it was first issued through (None: new object)
     ws_seen = False
     for k, ((j, oc, cm), ob, sn) in enumerate(zip(ops, res["obs"], res["snaps"])):
@@ -590,37 +598,44 @@ def oracle_sequence(U, ops, res):
         if name in owner and owner[name] != j:
             diff = differing_fields(U[owner[name]], sp)
             if diff:
-                bad.append(("shared-name|" + ("optimisation-changed-after-construction" if late else classify(U[owner[name]], sp)),
+                bad.append(("shared-name|" + ("optimisation-changed-after-construction" if late or name in late_names
+                                              else classify(U[owner[name]], sp)),
                             f"op {k}: request {sp['tag']} got calculation name {name!r}, already owned by "
                             f"{U[owner[name]]['tag']} (they differ in {diff})"))
+        if name not in owner and late:
+            late_names.add(name)
         owner.setdefault(name, j)
         outf = sn["out"]
         if outf is None:                 # the calculation failed before any file name was fixed
             continue
-        if sp["meth"] != "surf" and outf != name + ".out":
-            bad.append(("output-file|not-named-after-the-calculation",
-                        f"op {k}: {sp['tag']} is named {name!r} but reads/writes the output file {outf!r}"))
-        if not invoked and (outf not in produced or not produced[outf][0]):
-            bad.append(("reuse|output-not-normal", f"op {k}: {sp['tag']} skipped the external program although {outf} "
-                        + ("did not exist" if outf not in produced else "had not terminated normally")))
-        if sp["meth"] == "surf":
-            oc = "ONormal"               # the optimiser always saves its trajectory
-        if invoked and oc != "ONoOutput":
-            produced[outf] = (oc == "ONormal", j)
-            want = ["C15TAG", str(j), "normal" if oc == "ONormal" else "abnormal", str(k)]
-            if sp["meth"] != "surf" and sn.get("out_tag") != want:
-                bad.append(("regenerated-output|not-the-file-just-written",
-                            f"op {k}: {sp['tag']}: the program was run and wrote {' '.join(want)!r} but {outf} holds "
-                            f"{' '.join(sn.get('out_tag') or ['nothing'])!r}"))
-        if en is not None:
-            src = produced.get(outf)
-            if src is None or src[1] != en:
-                bad.append(("parsed|not-own-file", f"op {k}: {sp['tag']}: parsed energy tag {en} is not the content of {outf} ({src})"))
-            else:
-                diff = differing_fields(U[en], sp)
-                if diff:
-                    bad.append(("reused-result|" + ("optimisation-changed-after-construction" if late else classify(U[en], sp)),
-                                f"op {k}: {sp['tag']} took its energy from the output of {U[en]['tag']} (they differ in {diff})"))
+        # NoInputError: a declared input file is missing, nothing was run and nothing parsed (files may
+        # still have been removed by an explicit clean-up: checked below)
+        if not (sn.get("noinput") and not invoked and en is None):
+            if sp["meth"] != "surf" and outf != name + ".out":
+                bad.append(("output-file|not-named-after-the-calculation",
+                            f"op {k}: {sp['tag']} is named {name!r} but reads/writes the output file {outf!r}"))
+            if not invoked and (outf not in produced or not produced[outf][0]):
+                bad.append(("reuse|output-not-normal", f"op {k}: {sp['tag']} skipped the external program although {outf} "
+                            + ("did not exist" if outf not in produced else "had not terminated normally")))
+            if sp["meth"] == "surf":
+                oc = "ONormal"               # the optimiser always saves its trajectory
+            if invoked and oc != "ONoOutput":
+                produced[outf] = (oc == "ONormal", j)
+                want = ["C15TAG", str(j), "normal" if oc == "ONormal" else "abnormal", str(k)]
+                if sp["meth"] != "surf" and sn.get("out_tag") != want:
+                    bad.append(("regenerated-output|not-the-file-just-written",
+                                f"op {k}: {sp['tag']}: the program was run and wrote {' '.join(want)!r} but {outf} holds "
+                                f"{' '.join(sn.get('out_tag') or ['nothing'])!r}"))
+            if en is not None:
+                src = produced.get(outf)
+                if src is None or src[1] != en:
+                    bad.append(("parsed|not-own-file", f"op {k}: {sp['tag']}: parsed energy tag {en} is not the content of {outf} ({src})"))
+                else:
+                    diff = differing_fields(U[en], sp)
+                    if diff:
+                        bad.append(("reused-result|" + ("optimisation-changed-after-construction" if late or name in late_names
+                                                        else classify(U[en], sp)),
+                                    f"op {k}: {sp['tag']} took its energy from the output of {U[en]['tag']} (they differ in {diff})"))
         # files this calculation really (re)wrote in this operation (by modification time)
         mine = set(sn["written"])
         for f in mine:
@@ -867,7 +882,8 @@ def fixed_clusters(U):
                        o("a|xtb|k1|pcs", "ONormal", "CNone")]),
         ("substring", [o("xa|xtb|k1|base"), o("a|xtb|k1|base"), o("a|xtb|k1|base", "ONormal", "CEverything"),
                        o("xa|xtb|k1|base", "ONormal", "CEverything"), o("a|xtb|k2|base"), o("xa|xtb|k2|base", "OAbnormal")]),
-        ("whitespace", [o("a b|xtb|k1|base"), o("a b|xtb|k2|base"), o("a|xtb|k1|base"), o("a b|xtb|k1|charge", "OAbnormal"),
+        # " a": the line is read back under the key "a_xtb" and OVERWRITES the entry of calculation a (register[k] = v)
+        ("whitespace", [o("a b|xtb|k1|base"), o("a b|xtb|k2|base"), o("a|xtb|k1|base"), o(" a|xtb|k2|base"),
                         o("a b|xtb|k1|base", "ONormal", "CEverything"), o("a|xtb|k2|base", "ONoOutput", "CAuto")]),
     ]
 
@@ -1441,27 +1457,35 @@ def _restart_worker(jobfile):
 
 
 MANIFEST = {
-    "technique": "Coq proof over a hand model of the calculation registry/reuse/clean-up state machine whose parameters "
-                 "(hashed field list, skip rule, selection rule, file extensions) are regenerated from source by an ast "
-                 "translator + bounded-exhaustive / random / restart / concurrent correspondence against the real code",
-    "level_text": ("Machine-checked theorems (coq/C15/Props.v, closed under the global context), each over ALL request "
-                   "histories by induction: the suffix loop of _fix_unique terminates on every registry; an identical request "
-                   "gets the same name after any further history and appends nothing; requests differing in any field the "
-                   "identity determines (method, keywords, species name, charge, multiplicity, solvent, solvation model, "
-                   "cartesian constraints) or in the hyphen-normalised requested name never share a name; every result "
-                   "parsed in any reachable directory comes from an output produced by a request of the same identity; an "
-                   "output is reused only if it exists and terminated normally; restart equivalence; clean-up without "
-                   "everything=True removes only own files; every interleaving of concurrent workers with disjoint "
-                   "candidate names equals the sequential result (no line lost, duplicated or foreign).  Clauses FALSE of "
-                   "the faithful model are proved refuted with witnesses: point charges, atoms beyond the first 100, "
-                   "distance constraints below 1e-3, '-a' vs '_-a', names containing whitespace, clean_up prefix match."),
-    "level_note": ("Trusted: Coq kernel + vm_compute; tr/translate_c15.py (validated each run by the identity-class table); "
-                   "sha1/base64/f-string concatenation injective on the tuples that occur (the model identity is the tuple); "
-                   "repr(keywords) determines the keywords (known exception: ECP.min_atomic_number is not in the repr); the hand "
-                   "model of _fix_unique/run/clean_up and of the directory (tied by exhaustive depth-4/5/6 clusters, random, "
-                   "restart and concurrent streams); wrapper-declared additional input files enter as an oracle; atomic "
-                   "append of one registry line is ASSUMED (stated), exercised with forked workers, not proved; names with "
-                   "line breaks / non-ASCII whitespace are outside the faithful domain."),
+    "technique": "Coq proof over a hand model of the calculation registry / reuse / clean-up state machine whose parameters "
+                 "(hashed field list, skip rule, selection rule, file extensions, trajectory suffix) are regenerated from source by "
+                 "an ast translator, 57 source pins for the hand-modelled functions and their transitive dunder/helper dependencies, "
+                 "+ bounded-exhaustive / random / restart / concurrent / real-wrapper correspondence and oracles against the real code",
+    "level_text": ("Machine-checked theorems (coq/C15/Props.v, closed under the global context), each over ALL request histories by "
+                   "induction, for names in printable ASCII without blanks: the suffix loop of _fix_unique terminates on every "
+                   "registry; an identical request issued through a NEW object gets the same name after any further history and "
+                   "appends nothing; requests whose PRINTED identity fields differ (method name, repr(keywords), species name, "
+                   "charge, multiplicity, composition, solvent, solvation model, printed cartesian constraints, point charges) or "
+                   "whose hyphen-normalised requested names differ never share a name; every result parsed in any reachable "
+                   "directory (new or re-used external object; optimisation object run as built) comes from an output / trajectory "
+                   "produced by a request of the same identity; an output is reused only if it exists and terminated normally; a "
+                   "missing declared input means nothing is run or parsed; clean-up without everything=True removes only files "
+                   "written in this run PROVIDED the object declares no stale additional files; every interleaving of concurrent "
+                   "workers that each register ONE calculation with disjoint candidate names equals the sequential result.  "
+                   "Clauses FALSE of the faithful model are proved refuted with witnesses: distances rounded to 3 decimals, '-a' vs "
+                   "'_-a', names containing blanks, clean_up prefix match, clean_up of stale declarations of a re-used object, "
+                   "re-used object renamed, optimisation object changed after construction."),
+    "level_note": ("PARTIAL / trusted: sha1/base64/f-string concatenation injective on the tuples that occur (the model identity is "
+                   "the tuple); the theorems speak about PRINTED forms - keyword objects whose method string differs but print alike, "
+                   "and constraints given in another insertion order, are seen by implementation oracles only (both are reported "
+                   "findings); restart_equivalence_partial is a fold identity of the model (the code's statelessness is exercised by "
+                   "the restart stream only); the interleaving theorem covers one barrier-synchronised registration per worker (no "
+                   "cross-round interleaving, no run()/clean_up, no optimisation executor); atomic append of one registry line is "
+                   "ASSUMED; wrapper-declared additional files enter as an oracle (written / stale split by modification time); the "
+                   "wrappers' own execute path (work_in_tmp_dir, run_external) is exercised by the oracle-only real-wrapper stream, the "
+                   "Coq correspondence uses an in-process stand-in; only Molecule species, xtb/orca wrappers and a mock internal "
+                   "method are run; CalculationExecutorG/H, _run_single_energy_evaluation and set_output_filename are pinned but "
+                   "neither modelled nor run; names with line breaks / non-ASCII blanks are outside the model (excluded by `clean`)."),
 }
 
 
